@@ -334,6 +334,7 @@ func RunFree(t *testing.T, cfg FreeCfg) (ff *Free) {
 	f := &Free{cfg: cfg, rng: rand.New(rand.NewSource(cfg.Seed)), byIdent: map[Ident]*Op{}, reqOf: map[Ident]*PReq{},
 		out: map[uint16]Ident{}, Viol: map[string]string{}, tagOrder: map[int][]int{}}
 	ff = f
+	Progress()
 	defer func() {
 		if r := recover(); r != nil {
 			if f.Hang == "" {
